@@ -76,3 +76,22 @@ pub assume_specification<Idx: Clone>[ <core::ops::Range<Idx> as Clone>::clone ](
     ensures
         cloned::<Idx>(r.start, res.start),
         cloned::<Idx>(r.end, res.end);
+
+// `self.lines = reflow(self.lines.drain(..), cols)` in Buffer::resize: the drained vector is
+// overwritten immediately, so nothing about its final value is needed; the contract of
+// `reflow` constrains its result independently of the items.
+#[verifier::external_type_specification]
+#[verifier::external_body]
+#[verifier::reject_recursive_types(T)]
+#[verifier::reject_recursive_types(A)]
+pub struct ExDrain<'a, T: 'a, A: Allocator>(std::vec::Drain<'a, T, A>);
+
+pub assume_specification<T, A: Allocator, R: core::ops::RangeBounds<usize>>[ Vec::<T, A>::drain ](v: &mut Vec<T, A>, range: R) -> (d: std::vec::Drain<'_, T, A>);
+
+/// A `Vec<Line>` never holds more than isize::MAX / size_of::<Line>() (= 2^63 / 32) elements:
+/// guaranteed by the allocation limit of Vec, stated here because vstd only knows `len <= usize::MAX`.
+#[verifier::external_body]
+pub proof fn axiom_vec_line_len(v: &Vec<crate::line::Line>)
+    ensures
+        v@.len() <= MEM_MAX,
+{}
